@@ -1,0 +1,25 @@
+//go:build verif
+
+package cluster
+
+import "time"
+
+// Verification hooks (only compiled with -tags verif). A test harness may
+// install VerifYield to be called at labelled points of the shard manager
+// (it may block there to force an interleaving) and VerifTimer to substitute
+// the idle timer of a shard with one it can fire on demand.
+var VerifYield func(label string, key any)
+var VerifTimer func(shardDir string, t *time.Timer) *time.Timer
+
+func verifYield(label string, key any) {
+	if VerifYield != nil {
+		VerifYield(label, key)
+	}
+}
+
+func verifTimer(shardDir string, t *time.Timer) *time.Timer {
+	if VerifTimer != nil {
+		return VerifTimer(shardDir, t)
+	}
+	return t
+}
